@@ -4,7 +4,7 @@ from .. import scriptprop
 ID = "C06"
 GEN = ["ListShapes.lean", "RingShapes.lean"]   # regenerated from the source on every run (tie 4B): kernels / call shapes / function shapes
 RULE = ("three-way lock-step histories (fork, standard library, Lean heap model + sequence spec) over 3 lists (one a never-initialised zero value) with element handles "
-        "drawn from live, removed and foreign elements, PushBackList/PushFrontList incl. onto itself, Init; and ring histories with counts in -7..7 and multiples of the ring length, "
+        "drawn from live, removed and foreign elements, PushBackList/PushFrontList incl. onto itself, Init; and ring histories with counts in -7..7, multiples of the ring length and counts far beyond it (63..1006, both signs), "
         "Link of same-ring and different-ring positions, Unlink, zero-value rings (incl. the FIRST call on a never-touched zero ring), Link(nil); non-trivial = at least 5 mutating operations")
 ASSUMPTIONS = ["container/list and container/ring are the oracle named by the property", "Ring.Do callbacks do not mutate the ring"]
 
@@ -61,6 +61,9 @@ def ring_hist(rng, nops):
         r = rng.random()
         a, b = rng.randrange(nr), rng.randrange(nr)
         cnt = rng.choice([rng.randrange(-7, 8), rng.randrange(-7, 8), 0, nr, 2 * nr, -nr])
+        if rng.random() < 0.15:
+            # counts far beyond the ring length (a "long move" shortcut that reduces the count modulo Len only engages for large counts)
+            cnt = rng.choice([1, -1]) * rng.choice([63, 64, 65, 66, 67, 70, 100, 127, 128, 129, 130, 200, 257, 1000 + rng.randrange(7)])
         if r < 0.12: sc.append("rnext %d" % a)
         elif r < 0.22: sc.append("rprev %d" % a)
         elif r < 0.37: sc.append("rmove %d %d" % (a, cnt))
